@@ -72,7 +72,7 @@ class C12(Check):
 
     def shards(self, tier):
         k = self.bounds(tier)["max_rows"]
-        out = [("one", i, k) for i in range(5)]
+        out = [("one", i, k) for i in range(5)] + [("huge",)]
         if tier == "quick":
             out += [("pre", i, j, k) for i in range(5) for j in range(5)]
         else:
@@ -139,8 +139,46 @@ class C12(Check):
         if again is None or len(again.rows) != len(exp_rows) or any(x is not y for x, y in zip(again.rows, exp_rows)) or (again.start, again.end) != (s, e):
             ctx.violation("second-lookup-differs-after-result-was-edited", case, f"got {None if again is None else (again.rows, again.start, again.end)!r} expected {exp_rows!r} {s}-{e}")
 
+    def check_huge(self, ctx):
+        """row lengths around 2^31, 2^32 and 10^12: the index must hold them and the answers stay exact"""
+        big = [2**31 - 1, 2**31, 2**32 - 1, 2**32, 2**32 + 1, 10**12]
+        for ln1 in big:
+            for ln2 in (1, 2**32, 10**12):
+                rows = [Fragment("a", 1, ln1, 1), Gap(200, "scaffold"), Fragment("b", 5, 4 + ln2, -1), Gap(ln1, "contig"), Fragment("c", 1, 7, 1)]
+                case = ["huge", ln1, ln2]
+                ctx.cur = case
+                try:
+                    scffld = Scaffold("s", rows)
+                    ia = IndexedAssembly("t", scaffolds=[scffld])
+                except Exception as e:  # noqa: BLE001
+                    ctx.evaluations += 1
+                    ctx.violation(f"indexing-raises:{type(e).__name__}", case, repr(e))
+                    continue
+                total = scffld.length
+                edges = [1, ln1, ln1 + 1, ln1 + 200, ln1 + 201, ln1 + 200 + ln2, ln1 + 201 + ln2, total - 7, total - 6, total, total + 1]
+                for a in edges:
+                    for b in edges:
+                        if a <= b:
+                            ctx.evaluations += 1
+                            ctx.nontrivial += 1
+                            want = brute(scffld, a, b)
+                            try:
+                                got = ia.find_overlaps(Fragment("s", a, b, 1))
+                            except Exception as e:  # noqa: BLE001
+                                ctx.violation(f"raises:{type(e).__name__}/huge", case + [a, b], repr(e))
+                                continue
+                            if (got is None) != (want is None):
+                                ctx.violation("huge-coordinates-none-mismatch", case + [a, b], f"got {got!r} expected {want!r}")
+                            elif got is not None:
+                                i, j, s, e = want
+                                if got.rows != scffld.rows[i : j + 1] or (got.start, got.end) != (s, e):
+                                    ctx.violation("huge-coordinates-wrong-result", case + [a, b], f"got {got.start}-{got.end} rows {len(got.rows)} expected {s}-{e} rows {j - i + 1}")
+        ctx.sample({"huge": "row lengths 2^31-1 .. 10^12, queries at every row edge"})
+
     def run_shard(self, shard, ctx):
         kind = shard[0]
+        if kind == "huge":
+            return self.check_huge(ctx)
         if kind == "one":
             self.check_scaffold([ALPHA[shard[1]]], ctx)
             self.check_scaffold([ALPHA[shard[1]]], ctx, two=True)
@@ -164,6 +202,8 @@ class C12(Check):
     def replay(self, case, ctx):
         # the whole query sequence of that scaffold is replayed in the recorded order on one object
         # (a lookup may depend on earlier lookups); only the recorded query is reported
+        if case[0] == "huge":
+            return self.check_huge(ctx)
         spec, a, b, two = case[:4]
         order = case[4] if len(case) > 4 else "asc"
         spec = [tuple(r) for r in spec]
